@@ -10,6 +10,7 @@ PY = '/venv/bin/python'
 CHILD = os.path.join(os.path.dirname(os.path.dirname(os.path.abspath(__file__))), 'child.py')
 ENV = dict(os.environ, LANG='C.UTF-8', LC_ALL='C.UTF-8', PYTHONHASHSEED='0', PYTHONIOENCODING='utf-8')
 ENV.pop('WAYLAND_DEBUG', None)
+ENV.pop('PYTHONUNBUFFERED', None)      # the tool as users run it: its standard output is block-buffered when it is a pipe
 
 
 def stream_of(trace, render):
@@ -104,7 +105,7 @@ def one_case(case):
         f.write(text.encode(enc))
     sched = os.path.join(tmp, 'sched%d.json' % n)
     json.dump({'chunks': [[case['delays'][i], c] for i, c in enumerate(chunks)], 'status': status,
-               'stdout': [[0, 'first'], [len(chunks), 'last']], 'linger': case['linger'], 'close_err': case.get('close_err', False), 'enc': enc}, open(sched, 'w'))
+               'stdout': [[0, 'first'], [len(chunks), 'last']], 'linger': case['linger'], 'close_err': case.get('close_err', False), 'enc': enc, 'orphan': case.get('orphan', 0)}, open(sched, 'w'))
     obs = {}
     opts = list(case.get('opts', []))
     rc, out, err = run_tool(opts + ['-l', logf], b'quit\n')
@@ -217,6 +218,13 @@ def run(ctx):
                               'extra': EXTRA[n % len(EXTRA)], 'delays': [0.01 if (n % 3 == 0 and i) else 0 for i in range(len(chunks))],
                               'linger': (1.3 if n % 4 else 2.2) if close_err else (0 if n % 2 else 0.03), 'close_err': close_err,
                               'want': want2, 'session': -1})
+        # a program that writes everything at once, exits, and leaves a silent helper process behind that holds its standard
+        # error open for a while: every line is still processed, the exit status is the program's
+        for j in range(ctx.pick(3, 8)):
+            src = [c for c in cases if c['session'] >= 0][j * 3 % max(1, len([c for c in cases if c['session'] >= 0]))]
+            n = len(cases)
+            whole = ''.join(src['chunks'])
+            cases.append(dict(src, n=n, chunks=[whole], delays=[0], linger=0, orphan=1.3, status=statuses[n % len(statuses)], session=-3))
         # streams that are not valid UTF-8 (every character below is one byte): the three modes must still show the same
         # thing; there is no line-by-line reference for these, file mode is the reference
         for j, (b1, b2) in enumerate([('caf\xe9 starting up', 'caf\xe9_manager_v1'), ('\xff\xfe\xfd', 'x\x80y'), ('ok \xc3( broken', '\xe2\x82'),
@@ -224,10 +232,17 @@ def run(ctx):
             blines = [b1, '[1000.100]  -> wl_display@1.get_registry(new id wl_registry@2)',
                       '[1000.200]  -> wl_registry@2.bind(1, "%s", 1, new id [unknown]@3)' % b2, 'more ' + b1, '[1000.300]  -> wl_display@1.sync(new id wl_callback@4)']
             btext = '\n'.join(blines) + ('\n' if j % 2 == 0 else '')
+            # the reference: the same lines with every undecodable byte replaced (what all three modes do), fed line by line
+            dec = [l.encode('latin-1').decode('utf-8', 'replace') for l in blines]
+            bref = {'init': dict(sessbase.NOFILTER), 'events': [{'in': {'e': 'line', 'raw': l}} for l in dec] + [{'in': {'e': 'eof'}}]}
+            if j % 2:
+                bref['events'][-2]['in']['nonl'] = True
+            e1.run(bref, render={'dialect': 'new'})
+            bwant = None if 'escaped' in bref else norm([key_of(i) for e in bref['events'] for i in e['obs']['items']])
             for chunks in chunkings(btext, r, 2):
                 n = len(cases)
                 cases.append({'tmp': tmp, 'n': n, 'lines': blines, 'chunks': chunks, 'status': statuses[n % len(statuses)], 'extra': [],
-                              'delays': [0] * len(chunks), 'linger': 0, 'want': None, 'session': -2, 'enc': 'latin-1'})
+                              'delays': [0] * len(chunks), 'linger': 0, 'want': bwant, 'session': -2, 'enc': 'latin-1'})
         if ctx.quick:
             keep = ([c for c in cases if c['session'] not in (-1,)] + ctx.rnd.sample([c for c in cases if c['session'] == -1 and not c['close_err']], 20)
                     + ctx.rnd.sample([c for c in cases if c['session'] == -1 and c['close_err']], 6))
@@ -238,7 +253,7 @@ def run(ctx):
         for case, obs in zip(cases, results):
             rep.case(json.dumps([case['chunks'], case['status'], case['extra']]))
             rp = {'kind': 'modes', 'chunks': case['chunks'], 'status': case['status'], 'extra': case['extra'], 'delays': case['delays'], 'want': case['want'],
-                  'linger': case['linger'], 'close_err': case.get('close_err', False), 'enc': case.get('enc', 'utf-8'), 'opts': case.get('opts', []), 'wdebug': case.get('wdebug')}
+                  'linger': case['linger'], 'close_err': case.get('close_err', False), 'enc': case.get('enc', 'utf-8'), 'opts': case.get('opts', []), 'wdebug': case.get('wdebug'), 'orphan': case.get('orphan', 0)}
             shown = {}
             for mode in ('file', 'pipe', 'run'):
                 rc, out, err = obs[mode]
@@ -322,7 +337,7 @@ def replay(ctx, data):
     tmp = tempfile.mkdtemp(prefix='c13r-', dir=os.path.join(tlc.OUT, 'tmp'))
     try:
         case = {'tmp': tmp, 'n': 0, 'lines': [], 'chunks': data['chunks'], 'status': data['status'], 'extra': data['extra'],
-                'delays': data['delays'], 'linger': data.get('linger', 0), 'close_err': data.get('close_err', False), 'enc': data.get('enc', 'utf-8'), 'opts': data.get('opts', []), 'wdebug': data.get('wdebug')}
+                'delays': data['delays'], 'linger': data.get('linger', 0), 'close_err': data.get('close_err', False), 'enc': data.get('enc', 'utf-8'), 'opts': data.get('opts', []), 'wdebug': data.get('wdebug'), 'orphan': data.get('orphan', 0)}
         obs = one_case(case)
         for mode in ('file', 'pipe', 'run'):
             rc, out, err = obs[mode]
